@@ -10,6 +10,7 @@ FLOOR = 78      # 70% of the 112 obligation instances derived on the tree the ru
 EXPLANATION = ('Clauses decided: publish-before-acknowledge in commit_raw, hand-over order between commit overlay / log overlay / tables, '
                'removal from overlays only by owner id, read layering (commit overlay -> log overlay -> file) under the overlay lock, '
                'in-order use of the change list, single hashing scheme. Value-level correctness of write_plan/index/table algorithms is NOT decided.')
+EXPLANATION += ' Added from findings and seeded changes: the key digest covers the whole key and copies use fixed equal lengths (hash_key); the writer-side index search compares the stored key tail before it reports a hit; file/mapping reads are shadowed by the log overlay; the handle keeps the salt of the stored metadata; a deferral moves only the tree removals; thorough tier: nothing behind the handle is reachable from outside the crate (compile-fail witness).'
 ASSUMPTIONS = ['value-level algorithms (index search, table chains, compression) are outside this check',
                'MIR paths over-approximate feasible paths; unwind edges ignored']
 TRUSTED = ['rustc MIR construction (nightly)', 'pdb-facts driver', 'rule engine /verif/rules', 'anchor tables in props/shared.py and props/C01.py']
